@@ -16,8 +16,10 @@
 from __future__ import annotations
 
 import ast
+import re
 
 from ..cfg import header_parts
+from ..cfg import ENTRY, EXIT
 from ..flow import Defs, Scope, absence_by_none, iterations, rejections
 from ..loader import FuncInfo, dotted, norm, walk_no_nested
 from ..report import Ctx
@@ -264,6 +266,50 @@ def rule_siblings(ctx: Ctx) -> None:
             "DictArray.__getitem__ never yields a masked value: a missing element raises KeyError instead of reading as masked", key="dict-missing")
 
 
+def rule_ctor_loads(ctx: Ctx) -> None:
+    """A storage object that keeps its elements in memory and persists them to one file reads that file back whenever it is
+    constructed on a folder - on EVERY path through the constructor, whatever mapping the caller hands in (SharedMemoryDictArray
+    always passes a fresh manager dict): otherwise persist-then-reopen yields an all-masked array for that backend only."""
+    P = ctx.prog
+    n = 0
+    for cq in KEYED:
+        cls = P.cls(cq)
+        if "load" not in cls.methods or "persist" not in cls.methods or "__init__" not in cls.methods:
+            continue
+        # only classes whose persist() really writes (FileArray's elements are files already)
+        if not any(isinstance(c, ast.Call) and dotted(c.func).rsplit(".", 1)[-1] == "dump" for c in ast.walk(cls.methods["persist"].node)):
+            continue
+        n += 1
+        init = cls.methods["__init__"]
+        cfg = ctx.cfg(init)
+        loads = set(cfg.nodes(lambda s_: isinstance(s_, ast.Expr) and isinstance(s_.value, ast.Call) and norm(s_.value.func) == "self.load"))
+        ok = bool(loads) and cfg.must_pass(ENTRY, EXIT, loads, normal_only=True)
+        w = None if ok else cfg.witness_path(ENTRY, EXIT, loads)
+        ctx.add("5-siblings", init, cfg.stmt[sorted(loads)[0]] if loads else init.node, ok, f"{cls.name}.__init__ reads the persisted elements back on every path" if ok else
+                f"{cls.name}.__init__ can finish without `self.load()` ({'; '.join(cfg.describe(w, init.module.relpath))[:120] if w else 'no load call'}): a backend whose constructor is given a mapping (the shared-memory dict always is) "
+                "never sees what was persisted - reopened after persist() it reports every element as missing", key=f"ctor-loads {cls.name}")
+    ctx.floor("5-siblings.persisting-backends", n, 1)
+    # a key assembled while walking the shape BACKWARDS (last axis first) comes out reversed: unless it is reversed again the linear index
+    # is decomposed column-major and get_from_index / has_index address the transposed element
+    bad = []
+    for fn in P.functions.values():
+        if not fn.module.name.startswith(SA) or fn.module.name.endswith("_zarr"):
+            continue
+        for lp in [x for x in walk_no_nested(fn.node) if isinstance(x, ast.For)]:
+            it = norm(lp.iter)
+            if not (re.search(r"reversed\(.*shape", it) or re.search(r"shape\[::-1\]", it)):
+                continue
+            apps = [c.func.value.id for c in ast.walk(lp) if isinstance(c, ast.Call) and isinstance(c.func, ast.Attribute) and c.func.attr == "append" and isinstance(c.func.value, ast.Name)]
+            for nm in set(apps):
+                uses = [norm(r.value) for r in walk_no_nested(fn.node) if isinstance(r, ast.Return) and r.value is not None and any(isinstance(x, ast.Name) and x.id == nm for x in ast.walk(r.value))]
+                fixed = any("reversed(" in u or "[::-1]" in u for u in uses) or any(isinstance(c, ast.Call) and isinstance(c.func, ast.Attribute) and c.func.attr == "reverse" and norm(c.func.value) == nm for c in ast.walk(fn.node))
+                if uses and not fixed:
+                    bad.append((fn, lp, nm))
+    ctx.add("4-row-major", bad[0][0] if bad else SA, bad[0][1] if bad else "", not bad, "no key is assembled last-axis-first without being reversed" if not bad else
+            f"{bad[0][0].name} walks the shape backwards and appends to `{bad[0][2]}`, which it returns without reversing: the linear index is decomposed in column-major order - elements are found under the transposed key "
+            "(KeyError / wrong element for rank >= 2), the backends disagree", key="no-reversed-key")
+
+
 def rule_shape_from_key(ctx: Ctx) -> None:
     """The shape of what a read returns is decided by the KEY (one axis per slice), never by the stored values or the lengths of
     the axes.  Two NumPy operations decide it from the data instead:
@@ -275,8 +321,8 @@ def rule_shape_from_key(ctx: Ctx) -> None:
     bad: list[tuple[FuncInfo, ast.AST, str]] = []
     n = 0
     for fn in P.functions.values():
-        if not fn.module.name.startswith(SA) or fn.module.name.endswith("_zarr"):
-            continue
+        if not (fn.module.name.startswith(SA) or fn.module.name in ("pipefunc.map._run", "pipefunc.map.adaptive")) or fn.module.name.endswith("_zarr"):
+            continue  # the storage backends and the kernel that slices the inputs / collects the results
         n += 1
         for c in walk_no_nested(fn.node):
             if not isinstance(c, ast.Call):
@@ -294,7 +340,7 @@ def rule_shape_from_key(ctx: Ctx) -> None:
 
 
 def check(ctx: Ctx) -> None:
-    for rule in (rule_rank_domain, rule_normaliser, rule_interface, rule_row_major, rule_siblings, rule_shape_from_key):
+    for rule in (rule_rank_domain, rule_normaliser, rule_interface, rule_row_major, rule_siblings, rule_ctor_loads, rule_shape_from_key):
         ctx.run(rule)
 
 
